@@ -235,6 +235,187 @@ def oracle_server(ctx, data, o_parser, out, closed, escaped):
             ctx.violation("C01/server/malformed-connection-left-open", case, f"4xx sent but connection still open; responses {codes}")
 
 
+# ------------------------------------------------------------------ server level: what the handler sees
+def gen_pipeline(rng):
+    """2-5 strictly valid requests with unique targets; some ask for an Upgrade (which this server declines), some carry
+    a body whose *content* cannot be processed although its framing is fine (undecodable Content-Encoding, a chunk
+    extension / trailer line longer than the limits, too many trailers) and whose bytes spell further requests.
+    → (stream, [(start, end)] spans, cut candidates)"""
+    import gzip
+    k = rng.choice([2, 2, 3, 3, 4, 5])
+    out, spans = b"", []
+    for i in range(k):
+        smug = b"GET /smuggled%d HTTP/1.1\r\nHost: h\r\n\r\n" % i
+        m = rng.choice([b"GET", b"POST", b"POST", b"PUT"])
+        hs = [(b"Host", b"h")]
+        if rng.random() < 0.35:
+            hs += [(b"Connection", rng.choice([b"Upgrade", b"upgrade", b"keep-alive, Upgrade"])), (b"Upgrade", rng.choice([b"websocket", b"h2c", b"foo/2"]))]
+        body = b""
+        r = rng.random()
+        if rng.random() < 0.4:
+            hs.append((b"X-Read", b"0"))
+        if m != b"GET" or r < 0.2:
+            kind = rng.choice(["cl", "cl", "chunked", "chunked", "gzip-bad", "gzip-ok", "deflate-bad", "long-ext", "long-trailer", "many-trailers", "cl0"])
+            plain = rng.choice([b"a=1", b"x" * rng.randint(1, 40), smug, b"0\r\n\r\n" + smug])
+            if kind == "cl":
+                hs.append((b"Content-Length", b"%d" % len(plain))); body = plain
+            elif kind == "cl0":
+                hs.append((b"Content-Length", b"0"))
+            elif kind == "chunked":
+                hs.append((b"Transfer-Encoding", b"chunked"))
+                cut = rng.randint(0, len(plain))
+                body = H.chunked_body(rng, [plain[:cut], plain[cut:]], ext=True, trailers=[(b"X-T", b"v")] if rng.random() < 0.3 else None)
+            elif kind in ("gzip-bad", "deflate-bad"):
+                garbage = bytes(rng.randrange(256) for _ in range(rng.randint(1, 12))) + smug * rng.choice([1, 2])
+                hs += [(b"Content-Encoding", b"gzip" if kind == "gzip-bad" else b"deflate"), (b"Content-Length", b"%d" % len(garbage))]
+                body = garbage
+            elif kind == "gzip-ok":
+                z = gzip.compress(plain)
+                hs += [(b"Content-Encoding", b"gzip"), (b"Content-Length", b"%d" % len(z))]; body = z
+            elif kind == "long-ext":
+                hs.append((b"Transfer-Encoding", b"chunked"))
+                data = smug + b"y" * 3
+                body = b"%x;" % len(data) + b"e" * rng.choice([8185, 8190, 8200, 9000]) + b"\r\n" + data + b"\r\n0\r\n\r\n"
+            elif kind == "long-trailer":
+                hs.append((b"Transfer-Encoding", b"chunked"))
+                body = b"3\r\nabc\r\n0\r\nX-T: " + b"t" * rng.choice([8185, 8190, 8200, 9000]) + b"\r\n\r\n"
+            elif kind == "many-trailers":
+                hs.append((b"Transfer-Encoding", b"chunked"))
+                body = b"3\r\nabc\r\n0\r\n" + b"".join(b"X-%d: v\r\n" % j for j in range(rng.choice([100, 127, 128, 129, 200]))) + b"\r\n"
+        if rng.random() < 0.08:
+            hs.append((b"Connection", b"close")) if not any(k_ == b"Connection" for k_, _ in hs) else None
+        rng.shuffle(hs)
+        head = m + b" /r%d HTTP/1.1\r\n" % i + b"".join(k_ + b": " + v + b"\r\n" for k_, v in hs) + b"\r\n"
+        spans.append((len(out), len(out) + len(head), len(out) + len(head) + len(body)))
+        out += head + body
+    cands = set()
+    for a, b, c in spans:
+        for q in (a, b, c, b + 1, b + 5, b + 13, c - 1, c - 20, (b + c) // 2, a + 7):
+            if 0 < q < len(out):
+                cands.add(q)
+    return out, spans, sorted(cands)
+
+
+def server_seen(cases):
+    """each case (stream, cuts, gaps): feed the segments with virtual-time gaps to a fresh connection of a real server whose
+    handler records what it is given → [(seen, out bytes, closed, escaped)]; seen = [(method, raw_path, body | None)]"""
+    from aiohttp import web
+    from .common.vloop import run
+    from .common.memtransport import MemTransport
+    res = []
+
+    async def main():
+        cur = {}
+
+        async def handler(request):
+            rec = [request.method.encode(), request.raw_path.encode("utf-8", "surrogateescape"), None]
+            cur["seen"].append(rec)
+            if len(cur["seen"]) > 40:
+                request.transport.close()          # a connection that keeps producing requests: stop it
+                raise web.HTTPBadRequest()
+            if request.headers.get("X-Read") != "0":     # a handler may ignore the body
+                rec[2] = await request.read()
+            return web.Response(text="ok")
+        app = web.Application()
+        app.router.add_route("*", "/{tail:.*}", handler)
+        runner = web.AppRunner(app)
+        await runner.setup()
+        loop = asyncio.get_running_loop()
+        for data, cuts, gaps in cases:
+            cur["seen"] = []
+            proto = runner.server()
+            tr = MemTransport(loop, proto)
+            proto.connection_made(tr)
+            escaped, pos = None, 0
+            for n, gap in zip(cuts, gaps):
+                if tr.closing:
+                    break
+                try:
+                    proto.data_received(data[pos:pos + n])
+                except BaseException as e:  # noqa
+                    escaped = type(e).__name__; break
+                pos += n
+                await asyncio.sleep(gap)
+            await asyncio.sleep(30)
+            res.append(([tuple(r) for r in cur["seen"]], bytes(tr.out), tr.closing or tr.closed, escaped))
+            if not tr.closing:
+                tr.peer_close()
+            await asyncio.sleep(0)
+        await runner.cleanup()
+    excs = []
+    run(main, excs=excs)
+    return res, excs
+
+
+def oracle_seen(ctx, data, cuts, gaps, seen, escaped):
+    import gzip, zlib
+    case = {"kind": "pipeline", "stream": hx(data), "cuts": cuts, "gaps": gaps}
+    if escaped:
+        ctx.violation(f"C05/exception-escaped-data_received/{escaped}", case, f"{escaped} left RequestHandler.data_received")
+        return
+    ref, status, pos = rfc9112.read_requests(data, through_upgrade=True)
+    for i, (m, path, body) in enumerate(seen):
+        if i >= len(ref):
+            if status == "incomplete" and i == len(ref) and data[pos:].lstrip(b"\r\n").startswith(m + b" " + path + b" "):
+                continue     # the head of the message the strict reader is still inside of
+            ctx.violation("C01/server/handler-saw-request-not-on-the-wire", case,
+                          f"request #{i} given to the handler ({m!r} {path[:40]!r}) but the strict reading of the stream has {len(ref)} requests (status {status}): "
+                          f"seen {[s[1][:16] for s in seen][:8]}")
+            return
+        r = ref[i]
+        if (m.upper(), path) != (r["method"].upper(), r["target"]):
+            ctx.violation("C01/server/handler-request-differs", case, f"request #{i}: handler got {m!r} {path[:40]!r}, strict reading has {r['method']!r} {r['target'][:40]!r}")
+            return
+        if body is not None and not r.get("bad_body"):
+            want = r["body"]
+            enc = b",".join(v for k_, v in r["fields"] if k_.lower() == b"content-encoding").lower()
+            try:
+                if enc == b"gzip":
+                    want = gzip.decompress(want)
+                elif enc == b"deflate":
+                    want = zlib.decompress(want)
+            except Exception:
+                ctx.violation("C01/server/undecodable-body-read-succeeded", case, f"request #{i}: read() returned {body[:30]!r} for an undecodable {enc!r} body")
+                return
+            if body != want:
+                ctx.violation("C01/server/handler-body-differs", case, f"request #{i}: handler read {body[:40]!r}, strict body is {want[:40]!r}")
+                return
+
+
+def check_server_pipelines(ctx):
+    rng = ctx.rng
+    cases = []
+    corpus = [
+        # a declined Upgrade with a pipelined tail, then another declined Upgrade: every request once
+        (b"GET /r0 HTTP/1.1\r\nHost: h\r\nConnection: Upgrade\r\nUpgrade: foo\r\n\r\nPOST /r1 HTTP/1.1\r\nHost: h\r\nContent-Length: 3\r\n\r\nabc"
+         b"GET /r2 HTTP/1.1\r\nHost: h\r\nConnection: Upgrade\r\nUpgrade: foo\r\n\r\nGET /r3 HTTP/1.1\r\nHost: h\r\n\r\n", None),
+        # an undecodable body whose remaining bytes spell a request, cut inside the body
+        (b"POST /r0 HTTP/1.1\r\nHost: h\r\nX-Read: 0\r\nContent-Encoding: gzip\r\nContent-Length: 47\r\n\r\n\x00\x01garbage!!" + b"GET /smuggled0 HTTP/1.1\r\nHost: h\r\n\r\n", 86),
+    ]
+    for data, cut in corpus:
+        cases.append((data, [len(data)], [0]))
+        for c in ([cut] if cut else range(1, len(data), 7)):
+            cases.append((data, [c, len(data) - c], [1, 0]))
+    n = 500 if ctx.quick else 6000
+    for _ in range(n):
+        data, spans, cands = gen_pipeline(rng)
+        ctx.hit("pipeline-streams")
+        for _ in range(3):
+            kcuts = rng.choice([0, 1, 1, 2, 3])
+            pts = sorted(set(rng.choice(cands) if rng.random() < 0.7 else rng.randrange(1, len(data)) for _ in range(kcuts)))
+            cuts = [b - a for a, b in zip([0] + pts, pts + [len(data)])]
+            gaps = [rng.choice([0, 0, 0.01, 1, 5]) for _ in cuts]
+            cases.append((data, cuts, gaps))
+    res, excs = server_seen(cases)
+    for (data, cuts, gaps), (seen, out, closed, escaped) in zip(cases, res):
+        ctx.case(("pipe", data, tuple(cuts), tuple(gaps)), nontrivial=bool(seen))
+        ctx.hit(f"pipeline-seen:{min(len(seen), 6)}")
+        oracle_seen(ctx, data, cuts, gaps, seen, escaped)
+    if excs:
+        ctx.violation("C05/loop-exception-handler-called", {"n": len(excs), "first": repr(excs[0])[:300]}, f"{len(excs)} exceptions reached the event loop (pipelines)")
+    ctx.extra["server_pipeline_runs"] = len(cases)
+
+
 def check(ctx):
     rng = ctx.rng
     lines, pending, server_cases = [], [], []
@@ -284,12 +465,17 @@ def check(ctx):
     if excs:
         ctx.violation("C05/loop-exception-handler-called", {"n": len(excs), "first": repr(excs[0])[:300]}, f"{len(excs)} exceptions reached the event loop")
     ctx.extra["server_level_streams"] = len(server_cases)
+    check_server_pipelines(ctx)
 
 
 def replay(ctx, case):
     if "stream" not in case:
         return
     data = unhx(case["stream"])
+    if case.get("kind") == "pipeline":
+        res, excs = server_seen([(data, case["cuts"], case["gaps"])])
+        oracle_seen(ctx, data, case["cuts"], case["gaps"], res[0][0], res[0][3])
+        return
     if case.get("server"):
         canon, o = H.run_impl(H.Cfg(), [data], False)
         res, excs = server_run([data])
